@@ -269,6 +269,10 @@ def compress_scen(structures, L_offsets=(-1, 0, 1, 3), deadline_s=None, tag=''):
                 mv = None
                 panics.append({'msg': p['msg'], 'site': p['site'], 'fn': p['fn'], 'L': L, 'structure': list(hs),
                                'v': [(-1 if p['inputs'].get('s%d' % i) else 1) * (128 * hs[i] + p['inputs'].get('l%d' % i, 0)) for i in range(n)]})
+            # production degrees: the length accumulator must hold 1024 * (9 + 94) bits
+            for ty, nitems in ex.user.get('sum_types', []):
+                if (1 << WIDTH[ty]) <= 1024 * 103 and not any(b.get('width') for b in bad):
+                    bad.append({'kind': 'length accumulator of type %s too narrow for degree 1024 (needs to hold %d)' % (ty, 1024 * 103), 'v': [7040] * 1024, 'L': 1239, 'width': True})
             tot['paths'] += ex.paths; tot['queries'] += ex.nq; tot['solver_s'] += ex.solver_s; tot['steps'] += ex.steps
             tot['checks'] += sum(c[0] for c in ex.assert_sites.values())
     return {'tag': tag, 'paths': tot['paths'], 'queries': tot['queries'], 'solver_s': tot['solver_s'], 'steps': tot['steps'],
